@@ -229,6 +229,11 @@ def gen_case(rng, tier):
     elif u < 0.06:
         b = t0 - rng.choice([0, 1]); a = b - 2               # before the table
     sr_new = rng.choice([0.7, 1.5, 3.0, 6.0, 12.0])
+    if rng.random() < 0.25:
+        # per-dimension range (y, x) with unequal power-of-two entries: pre-dividing the coordinates is then exact, and the
+        # links inside the range are judged against linking the pre-divided rows with the scalar range 1
+        a0 = rng.choice([0.5, 1.0, 2.0, 4.0, 8.0])
+        sr_new = (a0, rng.choice([v for v in [0.5, 1.0, 2.0, 4.0, 8.0, 16.0] if v != a0]))
     memory = rng.choice([0, 0, 0, 0, 1])
     c = dict(frame_nos=frame_nos, frames=frames, labels=labs, link_range=[a, b], search_range=sr_new, memory=memory,
              how=how, valid=valid, sr_old=sr_old)
@@ -308,7 +313,15 @@ def independent_range_partition(df, c, s, e):
     kw = {}
     if c.get('memory'):
         kw['memory'] = c['memory']
-    o = tp.link(sub, c['search_range'], **kw)
+    sr = c['search_range']
+    if isinstance(sr, (tuple, list)):
+        # a per-dimension range is exactly a rescaling (C03_rescale_in_range): link the pre-divided rows with range 1, a
+        # path through the linker that never sees the tuple
+        sub = sub.copy()
+        for col, r in zip(['y', 'x'], sr):
+            sub[col] = sub[col] / float(r)
+        sr = 1.0
+    o = tp.link(sub, sr, **kw)
     return partition(dict(zip(o['rid'].tolist(), o['particle'].tolist())))
 
 
@@ -698,6 +711,8 @@ def replay(chk, path):
         print('replay: nothing executable in this replay file (proof/correspondence breakage): see its log field')
         return
     c = r['case']
+    if isinstance(c.get('search_range'), list):
+        c['search_range'] = tuple(c['search_range'])
     term, problems, info = observe(c)
     res = common.coq_eval_lists(chk.work, IMPORTS, FUNC, [term])
     print('replay: table\n', build_table(c).to_string())
